@@ -115,7 +115,27 @@ def _gen_read_timeout(rng, tier):
         yield dict(base, family="c16:read-timeout." + shape, client=client, truth={"requests": [{"method": "GET"}, {"method": "GET"}]})
 
 
+def _gen_peer_gone(rng, tier):
+    """The client goes away (a write to it fails) while the connection's reader is held inside the protocol - a pipelined request is
+    waiting behind a response that is being streamed slowly.  Only what does not depend on how far either runtime had got is compared:
+    which applications were started at all, and whether the one that was streaming was told (http.disconnect)."""
+    for i in range(12 if tier == "quick" else 300):
+        tag = 8700000 + i * 10
+        nchunks = rng.choice([6, 10])
+        first = [["recv_until_end"], ["send", {"type": "http.response.start", "status": 200, "headers": [(b"x-tag", b"%d" % tag)]}]]
+        for j in range(nchunks):
+            first += [["send", {"type": "http.response.body", "body": b"chunk-%d;" % j, "more_body": True}], ["sleep", 0.5]]
+        first += [["send", {"type": "http.response.body", "body": b"", "more_body": False}], ["linger", 0.5]]
+        second = [["recv_until_end"], ["respond", 200, [(b"x-tag", b"%d" % (tag + 1))], b"second"]]
+        blob = b"GET /t%d HTTP/1.1\r\nHost: h\r\n\r\nGET /t%d HTTP/1.1\r\nHost: h\r\n\r\n" % (tag, tag + 1)
+        yield {"family": "c16:peer-gone.h1-pipelined", "source": "c16", "backends": ["asyncio", "trio"], "config": {"keep_alive_timeout": 5000}, "conn": {},
+               "apps": {"default": second, "by_tag": {str(tag): first, str(tag + 1): second}},
+               "client": [["fail_write_at", rng.choice([2, 3, 4])], ["feed", blob], ["settle"], ["advance", nchunks * 0.5 + 2.0], ["settle"]],
+               "truth": {}, "reduce": "peer-gone", "sched": {"seed": rng.randrange(1 << 30)}, "horizon": 100.0}
+
+
 def gen(rng, tier):
+    yield from _gen_peer_gone(rng, tier)
     # the per-connection state seen by an application is part of the scope it is handed: it has to be the same on both workers,
     # also across several connections of one worker (real serve(), loopback)
     for k in range(2 if tier == "quick" else 8):
@@ -471,6 +491,11 @@ def run_one(case, tally):
         return findings, obs_all
     tally.clause("compared")
     a, t = norms["asyncio"][0], norms["trio"][0]
+    if case.get("reduce") == "peer-gone":
+        red = lambda n: {"started": sorted(x[3] for x in n["apps"]),
+                         "told": sorted((x[3], any(r_[0] == "http.disconnect" for r_ in x[6])) for x in n["apps"]),
+                         "handler": n["handler"], "closed": n["closed_at"] is not None}
+        a, t = red(a), red(t)
     if case["source"] == "c04":
         def _conn_error(n):
             c = n["client"]
